@@ -8,7 +8,7 @@ from vlib.common import hx
 from checks import parser_common as pc
 
 # multi-byte neighbours for every kind of marker (2-, 3- and 4-byte characters)
-SIGMA_MB = ["a", "1", " ", "\n", "@", "~", "#", "{", "}", "(", ")", "%", "|", "\\", "&", "é", "名", "\U0001F955", "¿"]
+SIGMA_MB = ["a", "1", " ", "\n", "@", "~", "#", "{", "}", "(", ")", "%", "|", "\\", "&", "é", "名", "\U0001F955", "¿", "\u00a0"]
 SIGMA_C05 = ["a", "1", " ", "\n", "@", "#", "~", "{", "}", "(", ")", "%", "-", "[", "]", "\\", ">", ":", "=", "é"]
 MB_WORDS = ["é", "名", "\U0001F955", "añ", "ß1", "x名", "naïve", "名前"]
 
